@@ -66,7 +66,7 @@ def run(ctx):
     # 3. scripts: the read-to-end probe for every combination, TLC's probes that witness an open finding, random scripts
     rng = random.Random(ctx.seed)
     nrand = ctx.pick(1, 3)
-    keep = ctx.pick(0.45, 1.0)
+    keep = ctx.pick(0.3, 1.0)
     cases = []
     witness = collections.defaultdict(list)
     open_tags = set(ctx.open_tags("C16"))
@@ -78,7 +78,8 @@ def run(ctx):
     for c in combos:
         probes = c["probes"]
         hits = [p for p in probes if p["viol"] and set(p["tags"]) & open_tags]
-        chosen = rng.random() < keep or c["t"]["kind"] == "none"
+        # quick: every combination on parts of at most one segment (cheap), a seeded sample of the longer ones
+        chosen = rng.random() < keep or c["t"]["kind"] == "none" or c["lc"]["full"] <= 1
         if chosen:
             add(c, probes[0]["script"], "read-to-end")
             for sc in _scripts(rng, c["path"], alphabet, c["lc"], nrand):
@@ -177,4 +178,4 @@ def run(ctx):
     ]
     return ("TLC enumerates all %d applicable (length class x tamper x path) combinations; %s of them run the read-to-end script "
             "plus %d random seek/read script(s) of <=3 steps (seeded), plus TLC's probe scripts for open findings; non-trivial = "
-            "tampered case with a failing read, or untampered non-empty case read exactly" % (len(combos), "45%" if keep < 1 else "all", nrand))
+            "tampered case with a failing read, or untampered non-empty case read exactly" % (len(combos), "all on parts of <= 1 segment and 30% of the longer ones" if keep < 1 else "all", nrand))
